@@ -695,6 +695,10 @@ impl Core {
     }
 
     fn make_forwarder(context: Arc<Context>) -> Box<dyn Forwarder> {
+        #[cfg(feature = "verif")]
+        if let Some(forwarder) = crate::verif::session::forwarder_override(&context) {
+            return forwarder;
+        }
         match &context.settings.forward_protocol {
             ForwardProtocolSettings::Direct(_) => Box::new(DirectForwarder::new(context)),
             ForwardProtocolSettings::Socks5(_) => Box::new(Socks5Forwarder::new(context)),
@@ -720,5 +724,118 @@ impl Default for Context {
             next_client_id: Default::default(),
             next_tunnel_id: Default::default(),
         }
+    }
+}
+
+/// Verification door (see `crate::verif`): runs the real connection handlers on harness
+/// transports. Nothing here changes the behaviour of the code above.
+#[cfg(feature = "verif")]
+impl Core {
+    pub(crate) fn verif_context(&self) -> Arc<Context> {
+        self.context.clone()
+    }
+
+    /// Route every outbound attempt of this instance's tunnels to `connector`
+    pub fn verif_install_connector(
+        &self,
+        connector: Arc<dyn crate::verif::session::Connector>,
+    ) -> crate::verif::session::ConnectorGuard {
+        crate::verif::session::install_connector(&self.context, connector)
+    }
+
+    /// What `on_new_tls_connection` does after the TLS handshake: create the HTTP codec for
+    /// `protocol` over `io` and hand it to the handler of `channel`.
+    pub async fn verif_serve_connection<IO>(
+        &self,
+        io: IO,
+        peer: std::net::SocketAddr,
+        protocol: crate::verif::session::Proto,
+        channel: crate::verif::session::ChannelView,
+        sni: String,
+        sni_auth_creds: Option<String>,
+    ) -> Result<(), String>
+    where
+        IO: 'static + AsyncRead + AsyncWrite + Unpin + Send,
+    {
+        use crate::verif::session::ChannelView;
+        let context = self.context.clone();
+        let client_id = log_utils::IdChain::from(log_utils::IdItem::new(
+            log_utils::CLIENT_ID_FMT,
+            context.next_client_id.fetch_add(1, Ordering::Relaxed),
+        ));
+        let codec = Self::make_tcp_http_codec(
+            protocol.into(),
+            context.settings.clone(),
+            crate::verif::session::VerifIo { io, peer },
+            client_id.clone(),
+        )
+        .map_err(|e| format!("Failed to create HTTP codec: {}", e))?;
+        match channel {
+            ChannelView::Tunnel => {
+                let tunnel_id = client_id.extended(log_utils::IdItem::new(
+                    log_utils::TUNNEL_ID_FMT,
+                    context.next_tunnel_id.fetch_add(1, Ordering::Relaxed),
+                ));
+                Self::on_tunnel_request(
+                    context,
+                    protocol.into(),
+                    codec,
+                    sni,
+                    sni_auth_creds,
+                    tunnel_id,
+                )
+                .await
+            }
+            ChannelView::Ping => {
+                http_ping_handler::listen(
+                    context.shutdown.clone(),
+                    codec,
+                    context.settings.tls_handshake_timeout,
+                    client_id,
+                )
+                .await
+            }
+            ChannelView::Speedtest => {
+                http_speedtest_handler::listen(
+                    context.shutdown.clone(),
+                    codec,
+                    context.settings.tls_handshake_timeout,
+                    client_id,
+                )
+                .await
+            }
+            ChannelView::ReverseProxy => {
+                reverse_proxy::listen(context.clone(), codec, sni, client_id).await
+            }
+        }
+        Ok(())
+    }
+
+    /// The rule evaluation applied to a new TLS / QUIC connection
+    pub fn verif_eval_rules(
+        &self,
+        client_ip: Option<std::net::IpAddr>,
+        client_random: Option<&[u8]>,
+    ) -> Result<(), String> {
+        Self::evaluate_connection_rules(
+            &self.context,
+            client_ip,
+            client_random,
+            &log_utils::IdChain::empty(),
+        )
+    }
+
+    /// The TLS demultiplexer decision for (ALPN list, SNI)
+    pub fn verif_select(
+        &self,
+        alpn: &[Vec<u8>],
+        sni: &str,
+    ) -> Result<crate::verif::session::MetaView, String> {
+        self.context
+            .tls_demux
+            .read()
+            .unwrap()
+            .select(alpn.iter().map(Vec::as_slice), sni.to_string())
+            .map(|m| crate::verif::session::MetaView::from(&m))
     }
 }
